@@ -284,7 +284,8 @@ class QuotientFilter:
         if self._hash_func("test", 0) != second._hash_func("test", 0):
             raise QuotientFilterError("Hash functions do not match")
 
-        for _h in second.hashes():
+        # a snapshot, not the live generator: an insertion may resize `self`, and `second` may be `self`
+        for _h in second.get_hashes():
             self.add_alt(_h)
 
     def _shift_insert(self, q: int, r: int, orig_idx: int, insert_idx: int, flag: int):
